@@ -232,6 +232,114 @@ class PbModel:
             return SV("val", z3.Select(eng.field_array(st, self.key(msg, "$oneof." + group)), r))
         raise Unsupported("message method " + name)
 
+    def extend_map(self, eng, recv, gen, st):
+        """rep.extend(callee(e) for e in S)  where the element expression is a call *by contract* to a function that only
+        allocates (contract flag alloc_only: its frame is 'objects that did not exist before', and every postcondition
+        clause is about fields of the result or of objects allocated by the call, in terms of the pre-state - so it stays
+        true when further objects are allocated).  Map rule: there is one message msg(e) per element, pairwise distinct and
+        new; each satisfies the callee's postcondition; the field's member set gains exactly those messages; objects that
+        existed before are unchanged.  The callee's precondition is an obligation for an arbitrary element."""
+        import ast as _ast
+        from .core import serial_mark, consts_since, subst_sv
+        r, msg, attr = recv.x
+        f = self.fdef(msg, attr)
+        if not self.is_msg(f["type"]) or len(gen.generators) != 1 or gen.generators[0].ifs or gen.generators[0].is_async:
+            raise Unsupported("extend of a repeated field with this generator shape")
+        g0 = gen.generators[0]
+        it = eng.eval(g0.iter, st)
+        bags = eng.bags_of(it, st)
+        heap0 = dict(st.heap)
+        alive0 = eng.field_array(st, "$alive")
+        per = []
+        for b in bags:
+            if b.aux:
+                raise Unsupported("map rule over an iterable with auxiliary state")
+            mark = serial_mark()
+            news, cond, elem, bdefs = b.instantiate("mp")
+            s = st.fork()
+            s.assume(cond)
+            s.define(bdefs)
+            eng.assign(g0.target, elem, s)
+            pc0 = len(s.pc)
+            eng.last_applied = None
+            res = eng.eval(gen.elt, s)
+            c = getattr(eng, "last_applied", None)
+            if c is None or not getattr(c, "alloc_only", False):
+                raise Unsupported("map rule: the element expression is not a call to an allocate-only contract")
+            if not (res.k == "ref" and (res.cls or "").startswith("pb:")):
+                raise Unsupported("map rule: element is not a message")
+            changed = {k: arr for k, arr in s.heap.items() if k not in heap0 or not z3.eq(arr, heap0[k])}
+            try:
+                ev = to_val(elem)
+            except Unsupported:
+                ev = None
+            per.append((news, cond, res.t, list(s.pc[pc0:]), changed, mark, ev))
+        keys = sorted({k for p_ in per for k in p_[4]})
+        final = {}
+        for k in keys:
+            old = heap0.get(k)
+            if old is None:
+                old = eng.field_array(st, k)
+                heap0[k] = old
+            final[k] = fresh("HM_" + k.replace("#", "_").replace("$", "S").replace(".", "_"), old.sort())
+        rr = fresh("r", Int)
+        for k in keys:
+            st.define(z3.ForAll([rr], z3.Implies(z3.Select(alive0, rr), z3.Select(final[k], rr) == z3.Select(heap0[k], rr))))
+        added = []
+        from .core import legal_pattern
+        for (news, cond, m, F, changed, mark, ev) in per:
+            sub = []
+            for k, arr in changed.items():
+                if not z3.is_const(arr):
+                    raise Unsupported("map rule: element call writes %s directly" % k)
+                sub.append((arr, final[k]))
+            others = [x for x in consts_since(F + [m], mark)
+                      if not any(x.eq(y) for y in news) and not any(x.eq(a_) for (a_, _) in sub)]
+            for x in others:
+                fx = z3.Function("sk_" + x.decl().name().replace("!", "_"), *([n_.sort() for n_ in news] + [x.sort()]))
+                sub.append((x, fx(*news)))
+            mt = z3.substitute(m, *sub) if sub else m
+            body = z3.substitute(z3.And(F), *sub) if (sub and F) else (z3.And(F) if F else z3.BoolVal(True))
+            pats = None
+            if news:
+                pats = [mt]
+                if ev is not None and legal_pattern(ev) and all(any(n_.eq(x_) for x_ in consts_since([ev], 0)) for n_ in news) \
+                        and not any(ev.eq(n_) for n_ in news):
+                    pats.append(ev)         # also triggered by the element itself (e.g. items[j] of a list)
+                st.define(z3.ForAll(news, z3.Implies(cond, z3.And(body, z3.Not(z3.Select(alive0, mt)))), patterns=pats))
+                news2 = [fresh("mq", n_.sort()) for n_ in news]
+                cond2 = z3.substitute(cond, *zip(news, news2))
+                mt2 = z3.substitute(mt, *zip(news, news2))
+                st.define(z3.ForAll(news + news2, z3.Implies(z3.And(cond, cond2, mt == mt2), z3.And([a_ == b_ for a_, b_ in zip(news, news2)]))))
+            else:
+                st.define(z3.Implies(cond, z3.And(body, z3.Not(z3.Select(alive0, mt)))))
+            added.append((news, cond, mt, pats if news else None))
+        # messages of different source collections are distinct as well (they are different allocations)
+        for i_ in range(len(added)):
+            for j_ in range(i_ + 1, len(added)):
+                n1, c1, m1, _p1 = added[i_]
+                n2, c2, m2, _p2 = added[j_]
+                st.define(z3.ForAll(n1 + n2, z3.Implies(z3.And(c1, c2), m1 != m2)) if (n1 or n2) else z3.Implies(z3.And(c1, c2), m1 != m2))
+        for k in keys:
+            st.heap[k] = final[k]
+        ks = self.key(msg, attr) + "#set"
+        old = z3.Select(eng.field_array(st, ks), r)
+        new = fresh("rep", SetSort)
+        x = fresh("x", Val)
+        disj = [z3.Select(old, x)]
+        for (news, cond, mt, pats) in added:
+            disj.append(z3.Exists(news, z3.And(cond, x == VRef(mt))) if news else z3.And(cond, x == VRef(mt)))
+            # (consequence of the definition below, stated with the element as trigger)
+            if news:
+                st.define(z3.ForAll(news, z3.Implies(cond, z3.Select(new, VRef(mt))), patterns=pats))
+            else:
+                st.define(z3.Implies(cond, z3.Select(new, VRef(mt))))
+        st.define(z3.ForAll([x], z3.Select(new, x) == z3.Or(*disj)))
+        st.heap[ks] = z3.Store(eng.field_array(st, ks), r, new)
+        kl = self.key(msg, attr) + "#len"
+        st.heap[kl] = z3.Store(eng.field_array(st, kl), r, fresh("replen", Int))
+        return sv_none()
+
     def sub_get(self, eng, sub, attr, st):
         """attribute of a message-typed field handle (proto_symbol.foo.bar)"""
         r, msg, fattr, t = sub.x
